@@ -314,6 +314,22 @@ def run_object(case, ctx, qr, rng, work, out):
                     g = safe_obs(ctx, qr, back2[k + 1], "TimeAxis", {"via": "savedir history"})
                     if g is not None:
                         compare(ctx, saved[k], g, {"kind": "TimeAxis", "via": "savedir history with automatic tags", "tag": k + 1})
+            # what a directory returns does not depend on what the program did with objects it loaded from it earlier
+            if back2:
+                k0 = sorted(back2.keys())[0]
+                victim = back2[k0]
+                try:
+                    victim.data[:] = numpy.asarray(victim.data) + 5.0
+                    victim.start = float(victim.start) + 5.0
+                except Exception:
+                    pass
+                with ctx.lib("Saveable.loaddir (second time)"):
+                    back3 = pool[0].loaddir(d2)
+                for k in range(nsteps):
+                    if (k + 1) in back3:
+                        g = safe_obs(ctx, qr, back3[k + 1], "TimeAxis", {"via": "second loaddir"})
+                        if g is not None:
+                            compare(ctx, saved[k], g, {"kind": "TimeAxis", "via": "second loaddir after a loaded object was modified", "tag": k + 1})
             ctx.event("savedir_histories")
             # parcel helpers and file objects
             fn = os.path.join(work, "p.qrp")
